@@ -188,10 +188,10 @@ func cmdCheck(args []string) int {
 	e.querylog = *qlog
 	if *tier == "thorough" {
 		e.tier = 1
-		e.timeoutMs = 300000
+		e.timeoutMs = 900000
 		e.maxSteps = 400_000_000
 	} else {
-		e.timeoutMs = 60000
+		e.timeoutMs = 180000
 		e.maxSteps = 100_000_000
 	}
 	e.unwind = 100000
